@@ -202,7 +202,7 @@ def iter4(program, out):
         for b, blk in enumerate(fn.blocks):
             for s in blk["stmts"]:
                 if s["k"] == "assign" and s["rv"]["k"] == "bin":
-                    out.obl("ITER-4", "comparison", (fn.path, b)) if s["rv"]["op"] in ORDER_OPS + ("Eq", "Ne") else None
+                    out.obl("ITER-4", "comparison", ("raw", fn.path, b, s.get("line"))) if s["rv"]["op"] in ORDER_OPS + ("Eq", "Ne") else None
                     if s["rv"]["op"] in ORDER_OPS:
                         for o in (s["rv"]["a"], s["rv"]["b"]):
                             if o["k"] in ("copy", "move"):
@@ -216,7 +216,7 @@ def iter4(program, out):
                 m = d.rsplit("::", 1)[1]
                 sty = t["callee"].get("self_ty") or {}
                 if d in ORDER_CALLS or m.startswith("sort") or m.startswith("binary_search"):
-                    out.obl("ITER-4", "ordering-call", (fn.path, b))
+                    out.obl("ITER-4", "ordering-call", ("raw", fn.path, b, t.get("line")))
                     bad = ptrish(sty) or any(x in sty.get("s", "") for x in ("NonNull<", "link::Link<", "*const ", "*mut "))
                     for a in t["args"]:
                         if a["k"] in ("copy", "move") and not a["pl"]["p"] and a["pl"]["l"] in from_ptr:
